@@ -234,7 +234,9 @@ def _norm_scalar(t: str, v):
         if math.isnan(v):
             return "NaN"
         if v == 0:
-            return 0.0
+            # the sign of zero is data wherever a zero is transmitted at all (repeated / map / optional / oneof /
+            # wrapper); in an implicit-presence position both zeros are "unset" (norm drops them via _is_default)
+            return "-0.0" if math.copysign(1.0, v) < 0 else 0.0
         return v
     if t == "bool":
         return v if isinstance(v, bool) else _bad(v)
@@ -253,7 +255,7 @@ def _is_default(t: str, nv) -> bool:
     if isinstance(nv, tuple):
         return False
     if t in ("float", "double"):
-        return nv == 0.0 and nv != "NaN"
+        return nv == "-0.0" or (nv == 0.0 and nv != "NaN")
     if t == "bool":
         return nv is False
     if t == "string":
@@ -267,7 +269,8 @@ def norm_single(schema: Schema, fi: FI, v):
     if fi.wkt in ("timestamp", "duration"):
         return int(v) if isinstance(v, int) and not isinstance(v, bool) else (v if isinstance(v, tuple) else _bad(v))
     if fi.wkt == "wrapper":
-        return _norm_scalar(fi.wraps, v)
+        nv = _norm_scalar(fi.wraps, v)
+        return 0.0 if nv == "-0.0" else nv  # the wrapper's own `value` field has implicit presence
     if fi.type == "message":
         return norm(schema, schema.msg(fi.msg), v) if isinstance(v, dict) else _bad(v)
     return _norm_scalar(fi.type, v)
@@ -279,7 +282,7 @@ def norm(schema: Schema, mi: MI, tree: Dict[str, Any]) -> Dict[str, Any]:
     * implicit-presence scalars at their default are dropped (same as unset);
     * a plain singular Timestamp/Duration at zero is dropped (betterproto exposes these
       as datetime/timedelta, whose presence no public observer reports);
-    * float fields are rounded to float32, NaN becomes "NaN", -0.0 becomes 0.0;
+    * float fields are rounded to float32, NaN becomes "NaN", -0.0 becomes "-0.0" (dropped like 0.0 where implicit);
     * maps become dicts, empty containers are dropped.
     """
     out: Dict[str, Any] = {}
